@@ -109,9 +109,15 @@ def scalar_op(ctx, dims, sizes, op, reflect, skind='f', dkind='f', other='scalar
         s = ctx.real('s') if skind == 'f' else ctx.int('s')
         svals = [s] * len(ra.cells)
         operand = s
-    elif other == 'ndarray':
-        svals = ctx.cells('f', len(ra.cells), 'w')
-        operand = ctx.nparray(svals, sizes, kind='f')
+    elif other in ('ndarray', 'list', 'ndarray-row'):
+        svals = ctx.cells(skind, len(ra.cells), 'w')
+        operand = ctx.nparray(svals, sizes, kind=skind)
+        if other == 'list':
+            operand = operand.tolist()
+        elif other == 'ndarray-row':         # NumPy broadcasting of a trailing-dimension row
+            row = svals[:sizes[-1]]
+            svals = row * (len(ra.cells) // sizes[-1])
+            operand = ctx.nparray(row, kind=skind)
     else:   # 0-d DimArray
         s = ctx.real('s')
         svals = [s] * len(ra.cells)
@@ -186,5 +192,13 @@ def templates():
             add('scalar-%s-%s' % (op, reflect), 'scalar_op', cost=0.2, dims=['x', 'y'], sizes=[2, 2], op=op, reflect=reflect)
         add('scalar-int-%s' % op, 'scalar_op', cost=0.2, dims=['x'], sizes=[3], op=op, reflect=(op in ('sub', 'div')), skind='i', dkind='i')
         add('ndarray-%s' % op, 'scalar_op', cost=0.2, dims=['x', 'y'], sizes=[2, 3], op=op, reflect=False, other='ndarray')
+        # int / bool data meets a real ndarray / list (NumPy's promotion, nothing truncated), and the reverse
+        for dk, sk in (('i', 'f'), ('f', 'i'), ('b', 'f')):
+            if dk == 'b' and op in ('sub', 'floordiv', 'pow', 'div'):
+                continue
+            for other in ('ndarray', 'list', 'ndarray-row'):
+                add('%s-%s-data-%s-operand-%s' % (other, op, dk, sk), 'scalar_op', cost=0.3, dims=['x', 'y'], sizes=[2, 2], op=op, reflect=False, other=other, skind=sk, dkind=dk)
+        add('scalar-%s-int-data-real-scalar' % op, 'scalar_op', cost=0.2, dims=['x'], sizes=[2], op=op, reflect=False, skind='f', dkind='i')
+        add('scalar-%s-int-data-real-scalar-r' % op, 'scalar_op', cost=0.2, dims=['x'], sizes=[2], op=op, reflect=True, skind='f', dkind='i')
         add('0d-%s' % op, 'scalar_op', cost=0.2, dims=['x', 'y'], sizes=[2, 2], op=op, reflect=(op in ('sub', 'pow')), other='0d')
     return ts
